@@ -780,3 +780,169 @@ Proof.
   - rewrite Ht. unfold dec_obj. rewrite (size_enc_r _ _ _ Hs), N.eqb_refl, Hd. reflexivity.
   - unfold dec_obj. rewrite (size_enc_r _ _ _ Hs), N.eqb_refl, Hd. reflexivity.
 Qed.
+
+(** * Schema evolution: fields appended to a struct.  What the writer of the extended struct
+    produces is an admissible encoding, for the original struct, of the value without the
+    appended fields. *)
+
+(** block lists of the shorter item list vs the longer one *)
+Inductive gpre : list (list (option bytes)) -> list (list (option bytes)) -> Prop :=
+| gp_nil gn : gpre [] gn
+| gp_cons go ext ro rn : (ext = [] -> gpre ro rn) -> (ext <> [] -> ro = []) -> gpre (go :: ro) ((go ++ ext) :: rn).
+
+Lemma bits_match_prefix blk k g ext : bits_match blk k (g ++ ext) -> bits_match blk k g.
+Proof.
+  intros H j Hj. specialize (H j ltac:(rewrite app_length; lia)). now rewrite app_nth1 in H by exact Hj.
+Qed.
+
+Lemma group_empty_prefix g ext : group_empty (g ++ ext) = true -> group_empty g = true.
+Proof. unfold group_empty. rewrite forallb_app. intros H. now apply andb_true_iff in H as [H _]. Qed.
+
+Lemma gcode_prefix : forall gn tail, gcode gn tail -> forall go, gpre go gn -> gcode go tail.
+Proof.
+  induction 1 as [junk|gs Hall|g gs blk tail Hb Hg IH]; intros go Hp.
+  - inversion Hp; subst. constructor.
+  - apply gc_cut. revert go Hp. induction Hall as [|g gs Hg Hall IHa]; intros go Hp.
+    + inversion Hp; subst. constructor.
+    + inversion Hp as [|go0 ext ro rn H1 H2]; subst; constructor.
+      * now apply group_empty_prefix in Hg.
+      * destruct ext as [|e ext].
+        -- apply IHa. now apply H1.
+        -- rewrite (H2 ltac:(discriminate)). constructor.
+  - inversion Hp as [|go0 ext ro rn H1 H2]; subst; [constructor|].
+    rewrite map_app, concat_app, <- app_assoc.
+    apply gc_cons; [now apply bits_match_prefix in Hb|].
+    destruct ext as [|e ext].
+    + cbn [map concat app]. apply IH. now apply H1.
+    + rewrite (H2 ltac:(discriminate)). constructor.
+Qed.
+
+Lemma chunk8_gpre : forall fuel (l l' : list (option bytes)),
+  (length l <= fuel)%nat -> forall fuel', (length (l ++ l') <= fuel')%nat ->
+  gpre (chunk8 fuel l) (chunk8 fuel' (l ++ l')).
+Proof.
+  induction fuel as [|f IH]; intros l l' Hl fuel' Hl'.
+  - destruct l; [constructor|cbn in Hl; lia].
+  - destruct l as [|a l]; [constructor|].
+    destruct fuel' as [|f']; [cbn in Hl'; lia|].
+    cbn [chunk8 app].
+    change (a :: l ++ l') with ((a :: l) ++ l').
+    rewrite (firstn_app 8 (a :: l) l'), (skipn_app 8 (a :: l) l').
+    apply gp_cons.
+    + intros Hext. apply IH.
+      * rewrite skipn_length. cbn [length] in *. lia.
+      * rewrite app_length, !skipn_length. rewrite app_length in Hl'. cbn [length] in *. lia.
+    + intros Hext.
+      assert (Hlt : (length (a :: l) < 8)%nat).
+      { destruct (Nat.le_gt_cases 8 (length (a :: l))) as [Hge|]; [|assumption].
+        exfalso. apply Hext. replace (8 - length (a :: l))%nat with 0%nat by lia. reflexivity. }
+      rewrite skipn_all2 by lia. apply chunk8_nil.
+Qed.
+
+Lemma bcode_prefix oi items items' body :
+  bcode oi (firstn 7 (items ++ items')) (chunk8 (length (skipn 7 (items ++ items'))) (skipn 7 (items ++ items'))) body ->
+  bcode oi (firstn 7 items) (chunk8 (length (skipn 7 items)) (skipn 7 items)) body.
+Proof.
+  intros (blk & ib & tail & -> & Hoi & Hb & Hg).
+  unfold bcode. rewrite firstn_app in Hb. rewrite firstn_app, map_app, concat_app, <- !app_assoc.
+  exists blk, ib, (concat (map payload (firstn (7 - length items) items')) ++ tail).
+  split; [reflexivity|]. split; [exact Hoi|]. split; [now apply bits_match_prefix in Hb|].
+  destruct (Nat.le_gt_cases 7 (length items)) as [Hge|Hlt].
+  - replace (7 - length items)%nat with 0%nat by lia. cbn [firstn map concat app].
+    apply (gcode_prefix _ _ Hg). rewrite skipn_app. replace (7 - length items)%nat with 0%nat by lia. cbn [skipn].
+    apply chunk8_gpre; lia.
+  - rewrite (skipn_all2 items) by lia. cbn [length chunk8]. constructor.
+Qed.
+
+Section Evolution.
+  Variable s : schema.
+  Variable x : tl2x.
+  Hypothesis Hwf : wf2 s x = true.
+  Notation enc := (fun t' ze' v' => enc2 s x t' ze' v').
+  Notation Rr := (fun t' ze' v' b' => R s x t' ze' v' b').
+  Notation nrm := (fun t' ze' v' => norm2 s x t' ze' v').
+
+  Lemma enc_items_app bitf : forall vs fds i items vs' fds',
+    length vs = length fds ->
+    enc_items enc bitf i (fds ++ fds') (vs ++ vs') = Some items ->
+    exists it1 it2, items = it1 ++ it2 /\ enc_items enc bitf i fds vs = Some it1 /\ length it1 = length fds.
+  Proof.
+    induction vs as [|ov vs IH]; intros fds i items vs' fds' Hl H.
+    - destruct fds; [|discriminate]. exists [], items. auto.
+    - destruct fds as [|fd fds]; [discriminate|]. cbn [app] in H. rewrite enc_items_cons in H.
+      destruct (enc_item enc bitf i fd ov) as [it|] eqn:Ei; [|discriminate]. cbn [bind_opt] in H.
+      destruct (enc_items enc bitf (S i) (fds ++ fds') (vs ++ vs')) as [its|] eqn:Er; [|discriminate].
+      cbn [bind_opt] in H. injection H as <-.
+      destruct (IH fds (S i) its vs' fds' ltac:(cbn in Hl; lia) Er) as (it1 & it2 & -> & H1 & H2).
+      exists (it :: it1), it2. split; [reflexivity|]. rewrite enc_items_cons, Ei, H1. cbn [bind_opt length]. split; [reflexivity|lia].
+  Qed.
+
+  Lemma norm_fields_app (rec : nat -> bool -> value -> value) : forall vs fds vs' fds',
+    length vs = length fds ->
+    norm_fields rec (fds ++ fds') (vs ++ vs') = norm_fields rec fds vs ++ norm_fields rec fds' vs'.
+  Proof.
+    induction vs as [|ov vs IH]; intros fds vs' fds' Hl; destruct fds as [|fd fds]; try discriminate; [reflexivity|].
+    cbn [app norm_fields]. now rewrite IH by (cbn in Hl; lia).
+  Qed.
+
+  Lemma enc_items_ext (bo bn : nat -> bool) : forall vs fds i items,
+    (forall j, (j < length fds)%nat -> bo (i + j)%nat = bn (i + j)%nat) ->
+    enc_items enc bn i fds vs = Some items -> enc_items enc bo i fds vs = Some items.
+  Proof.
+    induction vs as [|ov vs IH]; intros fds i items Hbit H; destruct fds as [|fd fds]; try exact H; try discriminate.
+    rewrite enc_items_cons in *.
+    assert (E : enc_item enc bo i fd ov = enc_item enc bn i fd ov).
+    { unfold enc_item. specialize (Hbit 0%nat ltac:(cbn; lia)). rewrite Nat.add_0_r in Hbit. now rewrite Hbit. }
+    rewrite E. destruct (enc_item enc bn i fd ov) as [it|]; [|discriminate]. cbn [bind_opt] in *.
+    destruct (enc_items enc bn (S i) fds vs) as [its|] eqn:Er; [|discriminate].
+    rewrite (IH fds (S i) its); [exact H| |exact Er].
+    intros j Hj. specialize (Hbit (S j) ltac:(cbn; lia)). now replace (i + S j)%nat with (S i + j)%nat in Hbit by lia.
+  Qed.
+
+  (** [told] = the original struct, [tnew] = the same with fields appended *)
+  Theorem evolution_appended_fields told tnew tag tag' fds ext fs fs' ze b :
+    nth_error s told = Some (TStruct tag fds) -> nth_error s tnew = Some (TStruct tag' (fds ++ ext)) ->
+    x_alias x told = false -> x_alias x tnew = false -> x_uidx x told = x_uidx x tnew ->
+    (forall i, (i < length fds)%nat -> x_bit x told i = x_bit x tnew i) ->
+    length fs = length fds ->
+    enc2 s x tnew ze (VStruct (fs ++ fs')) = Some b -> b <> [] ->
+    R s x told ze (VStruct fs) b /\
+    norm2 s x tnew ze (VStruct (fs ++ fs')) =
+      VStruct (norm_fields nrm fds fs ++ norm_fields nrm ext fs') /\
+    norm2 s x told ze (VStruct fs) = VStruct (norm_fields nrm fds fs).
+  Proof.
+    intros Eo En Ao An Hu Hbit Hl H Hb.
+    split; [|split; [cbn [norm2]; rewrite En, An; now rewrite norm_fields_app|cbn [norm2]; now rewrite Eo, Ao]].
+    cbn [enc2] in H. rewrite En, An in H.
+    destruct (x_uidx x tnew <=? maxInt) eqn:Eu; [|discriminate].
+    destruct (enc_items enc (x_bit x tnew) 0 (fds ++ ext) (fs ++ fs')) as [items|] eqn:Ei; [|discriminate].
+    cbn [bind_opt] in H.
+    destruct (enc_items_app _ fs fds 0%nat items fs' ext Hl Ei) as (it1 & it2 & -> & H1 & Hl1).
+    apply (enc_items_ext (x_bit x told) (x_bit x tnew)) in H1; [|intros j Hj; now apply Hbit].
+    destruct (wrap_obody s x ze (x_uidx x tnew) (it1 ++ it2) b ltac:(lia) H Hb) as (sb & Ho & Hs & ->).
+    assert (HIH : Forall (Popt (PE s x)) fs).
+    { rewrite Forall_forall. intros [v|] _; [|exact I]. exact (enc2_R_all s x Hwf v). }
+    cbn [R]. rewrite Eo, Ao. exists it1, sb, (body_of (x_uidx x tnew) (it1 ++ it2)).
+    split; [exact (enc_items_R s x Hwf _ fs fds 0%nat it1 HIH H1)|]. split; [|auto].
+    rewrite Hu. destruct Ho as [Hi [(E & Ez & Hall)|(oi & Hoi & Hc)]]; split; try exact Hi.
+    - left. split; [exact E|]. split; [exact Ez|]. rewrite forallb_app in Hall. now apply andb_true_iff in Hall as [Hall _].
+    - right. exists oi. split; [exact Hoi|]. now apply bcode_prefix in Hc.
+  Qed.
+
+  (** hence: the old reader reads what the new writer wrote as the value without the appended fields *)
+  Theorem old_reader_new_writer told tnew tag tag' fds ext fs fs' b fuel rest :
+    nth_error s told = Some (TStruct tag fds) -> nth_error s tnew = Some (TStruct tag' (fds ++ ext)) ->
+    x_alias x told = false -> x_alias x tnew = false -> x_uidx x told = x_uidx x tnew ->
+    (forall i, (i < length fds)%nat -> x_bit x told i = x_bit x tnew i) ->
+    length fs = length fds ->
+    enc2 s x tnew false (VStruct (fs ++ fs')) = Some b -> (vdepth (VStruct fs) <= fuel)%nat ->
+    dec2 fuel s x told (b ++ rest) = Some (Ok (VStruct (norm_fields nrm fds fs), rest)) /\
+    exists fs2, norm2 s x tnew false (VStruct (fs ++ fs')) = VStruct (norm_fields nrm fds fs ++ fs2).
+  Proof.
+    intros Eo En Ao An Hu Hbit Hl H Hd.
+    destruct (evolution_appended_fields told tnew tag tag' fds ext fs fs' false b Eo En Ao An Hu Hbit Hl H
+                (enc2_false_nonempty s x _ _ _ H)) as (HR & Hn1 & Hn2).
+    split; [|eexists; exact Hn1].
+    rewrite <- Hn2. exact (proj2 (R_dec_all s x Hwf _ told false b HR) fuel rest Hd).
+  Qed.
+End Evolution.
